@@ -15,6 +15,21 @@
 (* served by BOTH passes from the same state; `out` records both outcomes. *)
 (* PathsAgree (C05), the reply contract (C06) and the ECS rules (C19) are  *)
 (* invariants / action properties over `out`.                              *)
+(*                                                                         *)
+(* The cache LADDER (family "ladder") is transcribed twice as well:        *)
+(*   MsgLadder  : Cache.ServeDNS  exact entry > RFC 8020 subtree cut >     *)
+(*                RFC 9520 cached failure (inside its back-off) > miss     *)
+(*   WireLadder : Cache.serveWire  exact entry (a serve that DECLINES --   *)
+(*                the body does not fit the client's buffer -- goes to the *)
+(*                Msg body, never to a later rung) ;                       *)
+(*                serveCompositeFromWire  cut > failure (LookupWire: the   *)
+(*                same back-off test) > materialise                        *)
+(* over a history that has more than one name (the behaviour's own         *)
+(* question and a SIBLING whose validated NXDOMAIN proves their common     *)
+(* parent gone: the cut then covers the own name's still-live entry) and   *)
+(* in which time passes (Elapse: every failure back-off runs out; Recover: *)
+(* the upstream answers again).  WireMut selects a mutant of the wire      *)
+(* ladder (negative configs): each must violate PathsAgree.                *)
 (***************************************************************************)
 EXTENDS Integers, FiniteSets, Sequences, TLC
 
@@ -29,7 +44,8 @@ OptShapes   == {"none", "ok", "ver1", "dup", "nonroot", "badrdlen", "extrcode"}
 CookieKinds == {"none", "c8", "valid", "stale", "badlen"}
 EcsKinds    == {"none", "v4_24", "v4_32", "v6_56", "fam0", "badfam"}
 Sizes       == {0, 512, 1232, 4096}
-ContentKinds == {"pos", "signed", "nx", "nodata", "ede", "big", "servfail", "upecs", "upcookie", "cname",
+ContentKinds == {"pos", "signed", "nx", "nodata", "ede", "big", "servfail",
+                 "mid",              \* an RRset that fits 1232 bytes but not 512 (40 addresses): truncated only toward a plain UDP client "upecs", "upcookie", "cname",
                  "panic",            \* the handler behind the cache panics: the recovery middleware (AHEAD of edns) answers
                                      \* SERVFAIL through Chain.CancelWithRcode, outside the edns response writer
                  "cnamesplit",       \* the alias alone, validated (AD=1); its target is a second, unvalidated exchange:
@@ -47,7 +63,14 @@ PktType == [qr: BOOLEAN, opcode: {0, 2, 4}, qd: {0, 1, 2}, an: {0, 1}, rd: BOOLE
             ad: BOOLEAN, cd: BOOLEAN, qtype: {"A", "RRSIG", "unknown"},
             qclass: {"IN", "unknown"}, opt: OptShapes, do: BOOLEAN, size: Sizes,
             cookie: CookieKinds, nsid: BOOLEAN, keepalive: BOOLEAN, ecs: EcsKinds,
-            pad: BOOLEAN, unk: BOOLEAN, proto: {"udp", "tcp"}]
+            pad: BOOLEAN, unk: BOOLEAN, proto: {"udp", "tcp"},
+            name: {"own", "sib"}]   \* the behaviour's question, or a sibling below the same parent (upstream: validated NXDOMAIN of the PARENT)
+
+(* ---- switches a config may override (cfg: `MaxEnv <- ...`, `WireMut <- ...`) ---- *)
+MaxEnv  == 0        \* environment steps (Elapse / Recover) per behaviour; the ladder family raises it
+WireMut == "none"   \* "nobackoff": FailureCache.LookupWire forgets now.Before(retryAfter) on the exact-question entry
+                    \* "fallthrough": an exact hit whose byte serve declines falls into the composite rungs
+                    \* "failfirst": the composite walk asks the failure cache before the subtree cut
 
 CfgType == [nsid: BOOLEAN, ratelimit: BOOLEAN, ecs: {"off", "on", "invalid"}]
 
@@ -57,9 +80,13 @@ VARIABLES cfg,        \* chosen configuration
           scookie,    \* does the limiter hold a server cookie for this client: "none" | "set"
           tokens,     \* limiter tokens left for this client (bounded)
           n,          \* queries so far
+          sibc,       \* is the sibling's NXDOMAIN cached, per CD partition
+          cut,        \* BOOLEAN: an RFC 8020 subtree cut (and the RFC 8198 proof) of the common parent is recorded
+          failst,     \* RFC 9520 state of the own question per partition: "none" | "live" (inside the back-off) | "lapsed"
+          nenv,       \* environment steps so far
           out         \* last query: [pkt, wire, msg]  (hidden by VIEW)
 
-vars == <<cfg, content, cached, scookie, tokens, n, out>>
+vars == <<cfg, content, cached, scookie, tokens, n, sibc, cut, failst, nenv, out>>
 
 NoReply == [kind |-> "none"]
 
@@ -123,13 +150,37 @@ RLWire(p) == RLMsg(p, HasOpt(p))   \* serveWire reads the parsed cookie echo: sa
 Part(p) == <<p.qtype, IF p.cd THEN "cd" ELSE "nocd">>    \* the cache key: type and CD partition (one name per behaviour)
 ValidQ(p) == p.qtype # "unknown" /\ p.qclass = "IN"
 Cached(p) == cached[Part(p)]
-(* ECS-carrying and RD=0 requests never take the wire ladder; both fall to the Msg body,
-   so the ladder outcome is one function of the state for both passes *)
-Ladder(p, sentEcs) ==
+AllParts == {"A", "RRSIG", "unknown"} \X {"cd", "nocd"}
+ExactHit(p) == IF p.name = "sib" THEN sibc[Part(p)] ELSE Cached(p) # ""
+HitBody(p)  == IF p.name = "sib" THEN "nxsig" ELSE Cached(p)
+(* CD and client-subnet trees neither consume nor create shared synthesised denials *)
+CutApplies(p, sentEcs) == cut /\ ~p.cd /\ ~sentEcs
+FailLive(p) == p.name = "own" /\ failst[Part(p)] = "live"
+(* Cache.ServeDNS (Msg body): the rungs in order *)
+MsgLadder(p, sentEcs) ==
   IF ~ValidQ(p) THEN "cancel"                \* isValidQuery fails: no reply from cache, chain cancelled
   ELSE IF ~p.rd THEN "servfail-rd"           \* CancelWithRcode(SERVFAIL)
-  ELSE IF Cached(p) # "" THEN "hit"
+  ELSE IF ExactHit(p) THEN "hit"
+  ELSE IF CutApplies(p, sentEcs) THEN "cut"  \* lookupNXDomainCut (the RFC 8198 rung answers the same names the same way)
+  ELSE IF FailLive(p) THEN "failure"         \* Store.LookupFailure: only while now.Before(retryAfter)
   ELSE "miss"
+(* does the stored body fit what this client can take?  (entry_wire.go wireChainMismatch on the byte path, the edns
+   truncation on the Msg path) *)
+Truncates(body, p, ng) ==
+  p.proto = "udp" /\ ((body = "big" /\ ng.size < 65535) \/ (body = "mid" /\ ng.size < 1232))
+(* FailureCache.LookupWire on the exact-question entry *)
+WireFailLive(p) ==
+  p.name = "own" /\ (failst[Part(p)] = "live" \/ (WireMut = "nobackoff" /\ failst[Part(p)] = "lapsed"))
+(* Cache.serveWire + serveCompositeFromWire.  ECS-carrying, RD=0 and unknown-type requests never take the wire ladder;
+   a rung that cannot answer from bytes sends the request to the Msg body (MsgLadder), never to a later rung *)
+WireLadder(p, ng, sentEcs) ==
+  IF ~ValidQ(p) \/ ~p.rd \/ sentEcs THEN MsgLadder(p, sentEcs)
+  ELSE IF ExactHit(p) /\ ~(WireMut = "fallthrough" /\ Truncates(HitBody(p), p, ng))
+         THEN "hit"                          \* served from bytes, or declined: the Msg body serves the same entry
+  ELSE IF WireMut = "failfirst" /\ WireFailLive(p) THEN "failure"
+  ELSE IF cut /\ ~p.cd THEN "cut"            \* serveCutHitFromWire
+  ELSE IF WireFailLive(p) THEN "failure"     \* serveFailureFromWire (or, witness in doubt, the Msg body: same answer)
+  ELSE MsgLadder(p, sentEcs)                 \* composite miss: materialise, the Msg body walks its own ladder
 
 (* ---- the OPT records of a relayed upstream message -------------------- *)
 (* first to last; TRUE = the record carries options of the upstream's exchange with us *)
@@ -175,7 +226,7 @@ ReplyUp(p, ng, rcodeClass, body, up) ==
    foreign   |-> SeqAny(ShapeOpts(ng, up)),
    dnssec    |-> BodyHasDnssec(body) /\ (ng.do \/ p.qtype = "RRSIG"),
    ad        |-> BodyValidated(body) /\ ~ng.noad,
-   tc        |-> body = "big" /\ p.proto = "udp" /\ ng.size < 65535,
+   tc        |-> Truncates(body, p, ng),
    body      |-> body]
 (* a reply that is not a relayed upstream message (cache hit, local answer, cancel inside the edns writer) *)
 Reply(p, ng, rcodeClass, body, fromCancel) == ReplyUp(p, ng, rcodeClass, body, <<>>)
@@ -206,15 +257,17 @@ Nothing == [spend |-> 0, set |-> FALSE]
 Stores(c) == IF c \in {"servfail", "upecs", "panic"} THEN "" ELSE c
 StoresFor(p, c, ng) == IF c = "upecs" /\ ~EcsForwarded(p, ~ng.noedns) THEN c ELSE Stores(c)
 
-(* everything behind the negotiation is shared by the two passes: the cache
-   ladder answers from bytes or from the Msg body, the body is the same *)
-Behind(p, c, ng, rl, sentEcs) ==
-  LET ld == Ladder(p, sentEcs) IN
+(* everything behind the ladder is shared by the two passes: a rung answers from bytes or from the Msg body, the
+   body is the same; `ld` is the rung the pass's own ladder stopped at *)
+Behind(p, c, ng, rl, ld) ==
   CASE c \in LocalContent /\ p.qclass = "IN" /\ p.qtype # "unknown"
                           -> R(Reply(p, ng, RcodeOf(c), c, FALSE), rl, FALSE, "")   \* hostsfile / as112 answer before the cache
     [] ld = "cancel"      -> R(NoReply, rl, FALSE, "")
     [] ld = "servfail-rd" -> R(Reply(p, ng, "servfail", "none", TRUE), rl, FALSE, "")
-    [] ld = "hit"         -> R(Reply(p, ng, RcodeOf(Cached(p)), Cached(p), FALSE), rl, FALSE, "")
+    [] ld = "hit"         -> R(Reply(p, ng, RcodeOf(HitBody(p)), HitBody(p), FALSE), rl, FALSE, "")
+    [] ld = "cut"         -> R(Reply(p, ng, "nxdomain", "nxsig", FALSE), rl, FALSE, "")   \* synthesised from the recorded proof
+    [] ld = "failure"     -> R(Reply(p, ng, "servfail", "failure", FALSE), rl, FALSE, "") \* SERVFAIL + EDE 13, no upstream
+    [] p.name = "sib"     -> R(Reply(p, ng, "nxdomain", "nxsig", FALSE), rl, TRUE, "cutnx")
     [] c = "panic"        -> RUp(p, RawCancel(p, "servfail", ~ng.noedns, FALSE), rl, "")   \* OPT only if the CLIENT sent one
     [] OTHER              -> RUp(p, ReplyUp(p, ng, RcodeOf(c), c, UpOpts(c)), rl, StoresFor(p, c, ng))   \* the miss: the upstream's message is relayed
 
@@ -228,7 +281,7 @@ MsgPass(p, c) ==
      ELSE IF rl.v = "badcookie" THEN R(RawCancel(p, "badcookie", sees, ClientSentEcs(p, sees)), rl, FALSE, "")
      ELSE IF p.opcode # 0 THEN R(BareHeader("notimp"), rl, FALSE, "")
      ELSE IF sees /\ p.opt = "ver1" THEN R(RawCancel(p, "badvers", TRUE, EcsForwarded(p, sees)), rl, FALSE, "")
-     ELSE Behind(p, c, ng, rl, ClientSentEcs(p, sees))
+     ELSE Behind(p, c, ng, rl, MsgLadder(p, ClientSentEcs(p, sees)))
 
 (* the wire pass: ParseWire refuses => ServeRaw decodes and takes the Msg entry *)
 WirePass(p, c) ==
@@ -238,7 +291,7 @@ WirePass(p, c) ==
        IN IF rl.v = "drop" THEN R(NoReply, Nothing, FALSE, "")
           ELSE IF rl.v = "badcookie" THEN R(RawCancel(p, "badcookie", TRUE, ClientSentEcs(p, TRUE)), rl, FALSE, "")
           ELSE IF p.opt = "ver1" THEN R(RawCancel(p, "badvers", TRUE, EcsForwarded(p, TRUE)), rl, FALSE, "")
-          ELSE Behind(p, c, ng, rl, ClientSentEcs(p, TRUE))
+          ELSE Behind(p, c, ng, rl, WireLadder(p, ng, ClientSentEcs(p, TRUE)))
 
 (* ---- behaviour ------------------------------------------------------- *)
 Init ==
@@ -248,6 +301,10 @@ Init ==
   /\ scookie = "none"
   /\ tokens = 2
   /\ n = 0
+  /\ sibc = [x \in AllParts |-> FALSE]
+  /\ cut = FALSE
+  /\ failst = [x \in AllParts |-> "none"]
+  /\ nenv = 0
   /\ out = [valid |-> FALSE]
 
 Query(p) ==
@@ -256,21 +313,45 @@ Query(p) ==
   /\ LET acc == Accept(p) IN
      IF acc = "ignore" THEN
         /\ out' = [valid |-> TRUE, pkt |-> p, acc |-> acc, content |-> c, wire |-> R(NoReply, Nothing, FALSE, ""), msg |-> R(NoReply, Nothing, FALSE, "")]
-        /\ UNCHANGED <<cached, scookie, tokens>>
+        /\ UNCHANGED <<cached, scookie, tokens, sibc, cut, failst>>
      ELSE IF acc \in {"notimp", "formerr"} THEN
         /\ out' = [valid |-> TRUE, pkt |-> p, acc |-> acc, content |-> c, wire |-> R(BareHeader(acc), Nothing, FALSE, ""), msg |-> R(BareHeader(acc), Nothing, FALSE, "")]
-        /\ UNCHANGED <<cached, scookie, tokens>>
+        /\ UNCHANGED <<cached, scookie, tokens, sibc, cut, failst>>
      ELSE
         LET wr == WirePass(p, c)
             mr == MsgPass(p, c) IN
         /\ out' = [valid |-> TRUE, pkt |-> p, acc |-> acc, content |-> c, wire |-> wr, msg |-> mr]
         /\ tokens' = tokens - mr.spend
         /\ scookie' = IF mr.set THEN "set" ELSE scookie
-        /\ cached' = IF mr.store # "" THEN [cached EXCEPT ![Part(p)] = mr.store] ELSE cached
+        /\ cached' = IF mr.store \notin {"", "cutnx"} THEN [cached EXCEPT ![Part(p)] = mr.store] ELSE cached
+        \* the sibling's validated NXDOMAIN: cached under its own key; the proof is published as a cut of the parent
+        \* unless the tree carried CD or a client subnet
+        /\ sibc' = IF mr.store = "cutnx" THEN [sibc EXCEPT ![Part(p)] = TRUE] ELSE sibc
+        /\ cut' = (cut \/ (mr.store = "cutnx" /\ ~p.cd /\ ~ClientSentEcs(p, MsgSeesOpt(p))))
+        \* RFC 9520: an upstream SERVFAIL for the own question starts (renews) its back-off; a useful answer clears it
+        /\ failst' = IF mr.tail /\ p.name = "own" /\ c = "servfail" THEN [failst EXCEPT ![Part(p)] = "live"]
+                      ELSE IF mr.store \notin {"", "cutnx"} THEN [failst EXCEPT ![Part(p)] = "none"]
+                      ELSE failst
   /\ n' = n + 1
-  /\ UNCHANGED <<cfg, content>>
+  /\ UNCHANGED <<cfg, content, nenv>>
 
-Next == \E p \in Packets : Query(p)
+(* ---- environment ------------------------------------------------------ *)
+(* time passes: every running back-off runs out (answers live far longer than a back-off) *)
+Elapse ==
+  /\ nenv < MaxEnv /\ \E x \in AllParts : failst[x] = "live"
+  /\ failst' = [x \in AllParts |-> IF failst[x] = "live" THEN "lapsed" ELSE failst[x]]
+  /\ nenv' = nenv + 1
+  /\ out' = [valid |-> FALSE, env |-> "elapse"]
+  /\ UNCHANGED <<cfg, content, cached, scookie, tokens, n, sibc, cut>>
+(* the failing upstream answers again *)
+Recover ==
+  /\ nenv < MaxEnv /\ content = "servfail"
+  /\ content' = "pos"
+  /\ nenv' = nenv + 1
+  /\ out' = [valid |-> FALSE, env |-> "recover"]
+  /\ UNCHANGED <<cfg, cached, scookie, tokens, n, sibc, cut, failst>>
+
+Next == (\E p \in Packets : Query(p)) \/ Elapse \/ Recover
 
 Spec == Init /\ [][Next]_vars
 
@@ -323,7 +404,8 @@ AtMostOneOpt ==
 (* one limiter token per question at most, same on both passes *)
 OneToken == [][out'.valid => out'.wire.spend <= 1 /\ out'.wire.spend = out'.msg.spend]_vars
 
-TypeOK == tokens \in 0..2 /\ n \in 0..MaxQueries
+TypeOK == /\ tokens \in 0..2 /\ n \in 0..MaxQueries /\ nenv \in 0..MaxEnv /\ cut \in BOOLEAN
+          /\ failst \in [AllParts -> {"none", "live", "lapsed"}] /\ sibc \in [AllParts -> BOOLEAN]
 
-View == <<cfg, content, cached, scookie, tokens, n>>
+View == <<cfg, content, cached, scookie, tokens, n, sibc, cut, failst, nenv>>
 =============================================================================
